@@ -9,494 +9,12 @@
 package main
 
 import (
-	"bytes"
-	"fmt"
-	"io"
 	"math/rand"
-	"net/http"
-	"sort"
-	"strings"
 
-	"verifh/bridge"
-	"verifh/codec"
-	"verifh/corpus"
 	"verifh/ev"
-	"verifh/gen/all"
-	"verifh/model"
 	"verifh/props/c07/gen1"
 	"verifh/props/c07/gen2"
-	"verifh/refcodec"
-	"verifh/rig"
 )
-
-func trunc(s string) string {
-	if len(s) > 300 {
-		return s[:300] + "..."
-	}
-	return s
-}
-
-// collectPaths lists the key paths that occur in a value (fields, map keys, union aliases; "*" for array items).
-func collectPaths(s *corpus.Schema, t corpus.TypeExpr, v *model.Value, prefix []string, out *[][]string, depth int) {
-	if v == nil || depth > 4 {
-		return
-	}
-	et, td := model.Resolve(s, t)
-	add := func(k string) []string {
-		p := append(append([]string{}, prefix...), k)
-		*out = append(*out, p)
-		return p
-	}
-	switch v.Kind {
-	case model.KArray:
-		if len(v.Elems) > 0 {
-			p := append(append([]string{}, prefix...), "*")
-			for _, e := range v.Elems {
-				collectPaths(s, *et.Array, e, p, out, depth+1)
-			}
-		}
-	case model.KMap:
-		keys := make([]string, 0, len(v.Entries))
-		for k := range v.Entries {
-			keys = append(keys, k)
-		}
-		sort.Strings(keys) // the case list must not depend on Go's map iteration order
-		for _, k := range keys {
-			collectPaths(s, *et.Map, v.Entries[k], add(k), out, depth+1)
-		}
-		if len(v.Entries) > 0 {
-			add("*")
-		}
-	case model.KUnion:
-		if td != nil && v.Alias != "" {
-			for _, m := range td.Members {
-				if m.Alias == v.Alias {
-					// a spec never ends at a union member alias (excluding the only member leaves an invalid union)
-					collectPaths(s, m.Type, v.Member, append(append([]string{}, prefix...), m.Alias), out, depth+1)
-				}
-			}
-		}
-	case model.KRecord:
-		rt := td
-		if td.Kind == "complexkey" {
-			rt = s.Lookup(td.Key)
-		}
-		for _, f := range s.AllFields(rt) {
-			if fv := v.Fields[f.Name]; fv != nil {
-				collectPaths(s, f.Type, fv, add(f.Name), out, depth+1)
-			} else if !f.Optional && f.Default == nil {
-				add(f.Name)
-			}
-		}
-	}
-}
-
-func validSpecPath(p []string) bool {
-	for _, seg := range p {
-		if seg == "" || strings.ContainsAny(seg, "/") || seg == "$set" || seg == "$delete" {
-			return false
-		}
-	}
-	return len(p) > 0 && len(p) <= 4
-}
-
-func specText(spec [][]string) []string {
-	var out []string
-	for _, p := range spec {
-		out = append(out, strings.Join(p, "/"))
-	}
-	sort.Strings(out)
-	return out
-}
-
-func isPanic(err error) bool { _, ok := err.(*codec.PanicError); return ok }
-
-// leaked: got has something want has not.
-func bodyCarries(tree any, path []string) bool {
-	if len(path) == 0 {
-		return true
-	}
-	switch x := tree.(type) {
-	case map[string]any:
-		if path[0] == "*" {
-			for _, v := range x {
-				if bodyCarries(v, path[1:]) {
-					return true
-				}
-			}
-			return false
-		}
-		v, ok := x[path[0]]
-		if !ok || v == nil {
-			return false
-		}
-		return bodyCarries(v, path[1:])
-	case []any:
-		for _, v := range x {
-			if bodyCarries(v, path) {
-				return true
-			}
-		}
-	}
-	return false
-}
-
-func wireLevel(run *ev.Run, set *bridge.Set, rng *rand.Rand, perMethod int) {
-	srv, err := rig.NewServer(set, "bare", nil)
-	if err != nil {
-		run.Inconclusive("server: " + err.Error())
-		return
-	}
-	defer srv.Close()
-	cl := rig.NewClient(set, "http://"+srv.Addr, 0, false)
-	g := model.NewGen(set.Schema, rng)
-	g.Hostile = 0.1
-	g.MaxElems = 3
-	// resource code answers every request with a well-formed outcome (requests are made one at a time)
-	srng := rand.New(rand.NewSource(99))
-	sg := model.NewGen(set.Schema, srng)
-	sg.Hostile = 0
-	srv.SetScript(func(obs *rig.Observation) *rig.Outcome {
-		ep := srv.Endpoints[obs.Call.Resource]
-		for i := range ep.Res.Methods {
-			if ep.Res.Methods[i].Name == obs.Call.Method {
-				return ep.GenOutcome(&ep.Res.Methods[i], obs.Call, sg, srng)
-			}
-		}
-		return nil
-	})
-	n := 0
-	for _, res := range set.Schema.Resources {
-		if len(res.ReadOnly)+len(res.CreateOnly) == 0 {
-			continue
-		}
-		ep := srv.Endpoints[res.Namespace]
-		s := set.Schema
-		schemaT := *res.Schema
-		_, std := model.Resolve(s, schemaT)
-		for mi := range res.Methods {
-			m := &res.Methods[mi]
-			excl := ep.ExcludedFor(m.Name)
-			if m.Kind != "REST_METHOD" || excl == nil {
-				continue
-			}
-			var exclPaths [][]string
-			for _, e := range excl {
-				exclPaths = append(exclPaths, strings.Split(e, "/"))
-			}
-			isPatch := strings.Contains(m.Name, "partial_update")
-			for i := 0; i < perMethod; i++ {
-				n++
-				id := fmt.Sprintf("c07-%d", n)
-				call := ep.GenCall(m, g, rng)
-				// make sure the entities carry every excluded field (so that there is something to strip)
-				fillAll := func(v *model.Value) {
-					if v == nil {
-						return
-					}
-					full := g.Value(schemaT, 0)
-					for _, f := range s.AllFields(std) {
-						if v.Fields[f.Name] == nil && full.Fields[f.Name] != nil {
-							v.Fields[f.Name] = full.Fields[f.Name]
-						}
-					}
-					if a := v.Fields["audit"]; a == nil && std.Name == "Thing" {
-						v.Fields["audit"] = &model.Value{Kind: model.KRecord, Fields: map[string]*model.Value{"by": model.String("x"), "at": model.Int64(5)}}
-					}
-				}
-				fillAll(call.Entity)
-				for _, e := range call.Entities {
-					fillAll(e)
-				}
-				for _, e := range call.ByKey {
-					fillAll(e)
-				}
-				if isPatch {
-					// (3) a partial update touching an excluded field must fail on the client before anything is sent
-					touch := func(p *bridge.Patch) {
-						e := exclPaths[i%len(exclPaths)]
-						f := e[0]
-						var fld *corpus.Field
-						for _, x := range s.AllFields(std) {
-							if x.Name == f {
-								x := x
-								fld = &x
-							}
-						}
-						_, wholeTd := model.Resolve(s, fld.Type)
-						wholeRecord := wholeTd != nil && wholeTd.Kind == "record" && fld.Type.Ref != ""
-						switch {
-						case len(e) == 1 && wholeRecord && (i/len(exclPaths))%2 == 0:
-							// reach the excluded record-typed field through a nested partial update
-							np := bridge.NewPatch()
-							for _, x := range s.AllFields(wholeTd) {
-								np.Set[x.Name] = g.Value(x.Type, 1)
-								break
-							}
-							delete(p.Set, f)
-							delete(p.Delete, f)
-							p.Nested[f] = np
-						case len(e) == 1:
-							delete(p.Nested, f)
-							delete(p.Delete, f)
-							p.Set[f] = g.Value(fld.Type, 1)
-						default:
-							_, ftd := model.Resolve(s, fld.Type)
-							np := bridge.NewPatch()
-							for _, x := range s.AllFields(ftd) {
-								if x.Name == e[1] {
-									np.Set[x.Name] = g.Value(x.Type, 1)
-								}
-							}
-							delete(p.Set, f)
-							delete(p.Delete, f)
-							p.Nested[f] = np
-						}
-					}
-					if call.Patch != nil {
-						touch(call.Patch)
-					}
-					for _, p := range call.PatchByKey {
-						touch(p)
-					}
-					if call.Patch == nil && len(call.PatchByKey) == 0 {
-						continue
-					}
-					run.Eval(1)
-					run.Count("wire.patch_touching_excluded", 1)
-					got, wire, err := cl.Invoke(res, m, call, id)
-					obs := srv.Take(id)
-					desc := map[string]any{"generation": "v2", "resource": res.Namespace, "method": m.Name, "excluded": excl, "call": call.Show(), "wire_exchanges": len(wire), "invocations": len(obs)}
-					if err != nil {
-						run.Inconclusive("rig: " + err.Error())
-						continue
-					}
-					desc["client_result"] = got.Show()
-					switch {
-					case len(wire) != 0:
-						desc["request_body"] = trunc(wire[0].Body)
-						run.Violation("v2/wire/"+m.Name+"/patch-touching-excluded-field-was-sent", desc)
-					case got.Err == nil:
-						run.Violation("v2/wire/"+m.Name+"/patch-touching-excluded-field-no-client-error", desc)
-					default:
-						run.Distinct("wire|patch|" + res.Namespace + "|" + m.Name)
-					}
-					continue
-				}
-				// (1)(2) what the generated client transmits
-				run.Eval(1)
-				run.Count("wire.client_requests", 1)
-				_, wire, err := cl.Invoke(res, m, call, id)
-				srv.Take(id)
-				if err != nil {
-					run.Inconclusive("rig: " + err.Error())
-					continue
-				}
-				desc := map[string]any{"generation": "v2", "resource": res.Namespace, "method": m.Name, "excluded": excl, "call": call.Show()}
-				if len(wire) != 1 {
-					desc["wire_exchanges"] = len(wire)
-					run.Violation("v2/wire/"+m.Name+"/client-sent-nothing", desc)
-					continue
-				}
-				desc["request_body"] = trunc(wire[0].Body)
-				tree, perr := refcodec.ParseJSON([]byte(wire[0].Body))
-				if perr != nil {
-					run.Violation("v2/wire/"+m.Name+"/request-body-not-json", desc)
-					continue
-				}
-				// unwrap envelopes
-				var entities []any
-				switch m.Name {
-				case "batch_create":
-					if mm, ok := tree.(map[string]any); ok {
-						if a, ok := mm["elements"].([]any); ok {
-							entities = a
-						}
-					}
-				case "batch_update":
-					if mm, ok := tree.(map[string]any); ok {
-						if e, ok := mm["entities"].(map[string]any); ok {
-							for _, v := range e {
-								entities = append(entities, v)
-							}
-						}
-					}
-				default:
-					entities = []any{tree}
-				}
-				bad := ""
-				for _, e := range entities {
-					for _, p := range exclPaths {
-						if bodyCarries(e, p) {
-							bad = strings.Join(p, "/")
-						}
-					}
-				}
-				if bad != "" {
-					desc["transmitted_excluded_field"] = bad
-					run.Violation("v2/wire/"+m.Name+"/client-transmitted-excluded-field", desc)
-				} else if len(entities) > 0 {
-					run.Distinct("wire|client|" + res.Namespace + "|" + m.Name)
-				}
-			}
-			// (4) raw requests carrying an excluded field must be answered 400 without invoking resource code
-			for i := 0; i < perMethod; i++ {
-				for _, p := range exclPaths {
-					n++
-					id := fmt.Sprintf("c07raw-%d", n)
-					verb, target, body := rawRequest(set, ep, res, m, p, g, rng)
-					if verb == "" {
-						continue
-					}
-					run.Eval(1)
-					run.Count("wire.raw_requests", 1)
-					req, _ := http.NewRequest(verb, "http://"+srv.Addr+target, bytes.NewReader([]byte(body)))
-					req.Header.Set("X-RestLi-Method", m.Name)
-					req.Header.Set("X-RestLi-Protocol-Version", "2.0.0")
-					req.Header.Set("Content-Type", "application/json")
-					req.Header.Set("X-Verif-Req", id)
-					resp, err := http.DefaultClient.Do(req)
-					desc := map[string]any{"generation": "v2", "resource": res.Namespace, "method": m.Name, "excluded_path": strings.Join(p, "/"), "request": verb + " " + target, "body": trunc(body)}
-					if err != nil {
-						desc["error"] = err.Error()
-						run.Violation("v2/wire/"+m.Name+"/raw/no-response", desc)
-						continue
-					}
-					rb, _ := io.ReadAll(resp.Body)
-					resp.Body.Close()
-					obs := srv.Take(id)
-					desc["status"], desc["response"], desc["invocations"] = resp.StatusCode, trunc(string(rb)), len(obs)
-					switch {
-					case len(obs) != 0:
-						run.Violation("v2/wire/"+m.Name+"/raw/resource-invoked-with-excluded-field/"+pathShape(p), desc)
-					case resp.StatusCode != 400:
-						run.Violation("v2/wire/"+m.Name+"/raw/status-not-400/"+pathShape(p), desc)
-					default:
-						run.Distinct("wire|raw|" + res.Namespace + "|" + m.Name + "|" + strings.Join(p, "/"))
-					}
-				}
-			}
-		}
-	}
-}
-
-func pathShape(p []string) string {
-	if len(p) == 1 {
-		return "top-level-field"
-	}
-	return "nested-field"
-}
-
-// rawRequest builds a conforming request for method m whose body carries a value at the excluded path p.
-func rawRequest(set *bridge.Set, ep *rig.Endpoint, res *corpus.Resource, m *corpus.MethodSpec, p []string, g *model.Gen, rng *rand.Rand) (verb, target, body string) {
-	s := set.Schema
-	schemaT := *res.Schema
-	_, std := model.Resolve(s, schemaT)
-	entity := func() any {
-		v := g.Value(schemaT, 0)
-		// force the excluded path to be present
-		cur := v
-		ctd := std
-		for i, seg := range p {
-			var fld *corpus.Field
-			for _, x := range s.AllFields(ctd) {
-				if x.Name == seg {
-					x := x
-					fld = &x
-				}
-			}
-			if fld == nil {
-				return nil
-			}
-			if cur.Fields[seg] == nil || i < len(p)-1 {
-				cur.Fields[seg] = g.Value(fld.Type, 0)
-			}
-			if i < len(p)-1 {
-				cur = cur.Fields[seg]
-				_, ctd = model.Resolve(s, fld.Type)
-				if ctd == nil || cur.Kind != model.KRecord {
-					return nil
-				}
-			}
-		}
-		return refcodec.ToTree(s, schemaT, v)
-	}
-	patch := func() any {
-		// {"patch": {"$set": {field: value}}} or nested {"patch": {field: {"$set": {sub: value}}}}
-		var fld *corpus.Field
-		for _, x := range s.AllFields(std) {
-			if x.Name == p[0] {
-				x := x
-				fld = &x
-			}
-		}
-		if fld == nil {
-			return nil
-		}
-		if len(p) == 1 {
-			return map[string]any{"patch": map[string]any{"$set": map[string]any{p[0]: refcodec.ToTree(s, fld.Type, g.Value(fld.Type, 1))}}}
-		}
-		_, ftd := model.Resolve(s, fld.Type)
-		for _, x := range s.AllFields(ftd) {
-			if x.Name == p[1] {
-				return map[string]any{"patch": map[string]any{p[0]: map[string]any{"$set": map[string]any{p[1]: refcodec.ToTree(s, x.Type, g.Value(x.Type, 1))}}}}
-			}
-		}
-		return nil
-	}
-	last := res.Segments[len(res.Segments)-1]
-	base := "/" + last.Name
-	keyed := base + "/k1"
-	if last.Key == nil {
-		keyed = base
-	} else if last.Key.Ref != "" && strings.HasSuffix(last.Key.Ref, "CK") {
-		keyed = base + "/(a:x,b:1)"
-	}
-	if len(res.Segments) != 1 {
-		return "", "", ""
-	}
-	var tree any
-	switch m.Name {
-	case "create":
-		verb, target, tree = "POST", base, entity()
-	case "update":
-		verb, target, tree = "PUT", keyed, entity()
-	case "partial_update":
-		verb, target, tree = "POST", keyed, patch()
-	case "batch_create":
-		e := entity()
-		if e == nil {
-			return "", "", ""
-		}
-		verb, target, tree = "POST", base, map[string]any{"elements": []any{e}}
-	case "batch_update":
-		e := entity()
-		if e == nil {
-			return "", "", ""
-		}
-		id := "k1"
-		if strings.Contains(keyed, "(") {
-			id = "(a:x,b:1)"
-		}
-		verb, target, tree = "PUT", base+"?ids=List("+id+")", map[string]any{"entities": map[string]any{id: e}}
-	case "batch_partial_update":
-		e := patch()
-		if e == nil {
-			return "", "", ""
-		}
-		id := "k1"
-		if strings.Contains(keyed, "(") {
-			id = "(a:x,b:1)"
-		}
-		verb, target, tree = "POST", base+"?ids=List("+id+")", map[string]any{"entities": map[string]any{id: e}}
-	default:
-		return "", "", ""
-	}
-	if tree == nil {
-		return "", "", ""
-	}
-	return verb, target, refcodec.TreeJSON(tree, rng)
-}
 
 func main() {
 	run := ev.Start("C07")
@@ -507,8 +25,9 @@ func main() {
 	rng := rand.New(rand.NewSource(run.Seed + 77))
 	gen2.CodecLevel(run, rng, run.Pick(8, 80))
 	gen1.CodecLevel(run, rand.New(rand.NewSource(run.Seed+77)), run.Pick(8, 80))
-	wireLevel(run, all.Sets[0], rng, run.Pick(10, 100))
-	run.Set("generations", []string{"v2", "root (codec level)"})
+	gen2.WireLevel(run, rng, run.Pick(10, 100))
+	gen1.WireLevel(run, rand.New(rand.NewSource(run.Seed+78)), run.Pick(10, 100))
+	run.Set("generations", []string{"v2", "root"})
 	run.Require("writer_cases", 500)
 	run.Require("reader_cases", 500)
 	run.Require("wire.client_requests", 20)
